@@ -1,7 +1,7 @@
 (* Correspondence cases for C06: what AddBlock answered to the valid next block and to every single
    corruption of it, compared with the decision procedure of the model (Node/Accept.v). *)
 From NG Require Import Common.Tactics Common.HarnessLib.
-From NG Require Export Node.Accept.
+From NG Require Export Node.Accept Node.AcceptPool.
 Open Scope N_scope.
 
 Inductive case :=
@@ -10,7 +10,10 @@ Inductive case :=
        (sig_ok : bool) (txs_merkle : N) (txs_ok conflict_free exec_ok next_root_ok : bool)
        (impl : verdict) (n_after hh_after : N)
 | CDecodeErr (op : N)                 (* the corrupted encoding does not decode: nothing reaches AddBlock *)
-| CRejExec (changed : bool).          (* a block rejected after execution: did the database change? *)
+| CRejExec (changed : bool)           (* a block rejected after execution: did the database change? *)
+| CStale (fam : N) (verify pooled kept fresh_ok accepted : bool).
+      (* stale-pool family: T pooled (or not) at H, block H+1 without it, block H+2 carrying it offered;
+         kept = T still in the mempool after H+1; fresh_ok = a node that never pooled T admits it at H+1 *)
 
 (* which variant of the code answers like this?  F23/F24 repaired or not is read off the verdict itself:
    the case agrees with the mechanism model if it agrees with one of the variants; the specification is
@@ -47,4 +50,12 @@ Definition check_case (c : case) : N :=
                 b_prevroot b_hash sig_ok txs_merkle txs_ok conflict_free exec_ok next_root_ok impl n_after hh_after
   | CDecodeErr _ => 0
   | CRejExec changed => if changed then 2 else 0
+  | CStale _ verify pooled kept fresh_ok accepted =>
+      (* mechanism (Node/AcceptPool.v): offered at height 2 with pool = [7] iff kept *)
+      let valid := fun (_ t : N) => if t =? 7 then fresh_ok else true in
+      let pool := if kept then [7] else [] in
+      let mech := Bool.eqb accepted (block_ok valid verify 2 pool [7]) && (implb kept pooled) in
+      (* specification: the refresh keeps only what a fresh verification admits; acceptance = validity now *)
+      let spec := implb kept fresh_ok && implb (verify && accepted) fresh_ok && implb fresh_ok accepted in
+      if spec then code_of mech true else 2
   end.
